@@ -45,7 +45,6 @@ static long eff_src(const Ctx *x) {                   /* min(strlen(src), slen) 
 }
 static void ref_ncpy(const Ctx *x, Ref *r) {          /* strncpy_s wcsncpy_s stpncpy_s */
     long n = NEL(x); int w = x->fn->w;
-    if (sbos_ovf(x)) { r_fail(r, EOVERFLOW_); return; }
     long m = eff_src(x);
     if (x->c->slen == 0 && x->fn->rt != RT_P) { r_ok_str(r); rset(r, 0, 0, w); return; }
     if (m + 1 > n) { r_fail(r, ESNOSPC_); return; }
@@ -56,7 +55,6 @@ static void ref_ncpy(const Ctx *x, Ref *r) {          /* strncpy_s wcsncpy_s stp
 }
 static void ref_ncat(const Ctx *x, Ref *r) {          /* strncat_s wcsncat_s */
     long p = dlen_prior(x), n = NEL(x); int w = x->fn->w;
-    if (sbos_ovf(x)) { r_fail(r, EOVERFLOW_); return; }
     if (p < 0) { r_fail(r, ESUNTERM_); return; }
     long m = eff_src(x);
     if (p + m + 1 > n) { r_fail(r, ESNOSPC_); return; }
@@ -71,7 +69,6 @@ static void ref_memcpy(const Ctx *x, Ref *r) {        /* mem{cpy,move}{,16,32}_s
     const Fn *f = x->fn; const Case *c = x->c;
     size_t dbytes = c->dmax * f->dunit, sb = c->slen * f->sunit;
     if (c->slen == 0) { r->verdict = V_OK; r->has_dest = 1; r->dn = 0; return; }   /* documented: EOK when slen = 0 */
-    if (sbos_ovf(x)) { r_fail(r, EOVERFLOW_); return; }
     if (sb > dbytes) { r_fail(r, ESNOSPC_); return; }
     r->verdict = V_OK; r->has_dest = 1; r->dn = sb / f->w;
     memcpy(r->dest, x->ssnap, sb);
@@ -146,12 +143,12 @@ static void ref_case(const Ctx *x, Ref *r) {           /* strto{lower,upper}case
 }
 static int is_ws(unsigned long v) { return v == ' ' || v == '\t'; }
 static void ref_ljust(const Ctx *x, Ref *r) {
-    long p = dlen_prior(x); if (p < 0) { r_fail(r, ESUNTERM_); return; }
+    long p = dlen_prior(x); if (NEL(x) <= 1) { r->verdict = V_ANY; return; } if (p < 0) { r_fail(r, ESUNTERM_); return; }
     long i = 0; while (i < p && is_ws(DP(x, i))) i++;
     r_ok_str(r); long k = 0; for (; i < p; i++) rset(r, k++, DP(x, i), 1); rset(r, k, 0, 1);
 }
 static void ref_rmws(const Ctx *x, Ref *r) {
-    long p = dlen_prior(x); if (p < 0) { r_fail(r, ESUNTERM_); return; }
+    long p = dlen_prior(x); if (NEL(x) <= 1) { r->verdict = V_ANY; return; } if (p < 0) { r_fail(r, ESUNTERM_); return; }
     long i = 0, e = p; while (i < p && is_ws(DP(x, i))) i++; while (e > i && is_ws(DP(x, e - 1))) e--;
     r_ok_str(r); long k = 0; for (; i < e; i++) rset(r, k++, DP(x, i), 1); rset(r, k, 0, 1);
 }
@@ -177,9 +174,10 @@ static void r_notfound(Ref *r, int st) { r->verdict = V_OK; r->plain = st; }
 static void ref_cmp(const Ctx *x, Ref *r) {            /* strcmp_s strcasecmp_s strcoll_s wcscmp_s wcsicmp_s wcscoll_s */
     QO q; qo(x, &q); const Fn *f = x->fn;
     int ci = strstr(f->name, "case") || strstr(f->name, "icmp");
-    if (!q.sterm || (!q.dterm && q.sn >= q.dn)) { r->verdict = V_ANY; return; }   /* src unterminated / decided beyond dmax */
+    if (!q.sterm) { r->verdict = V_ANY; return; }
     long i = 0;
     for (;; i++) {
+        if (!q.dterm && i >= q.dn) { r_out(r, 0); r->sign_only = 1; return; }   /* first dmax elements equal */
         unsigned long a = i < q.dn ? q.d[i] : 0, b = i < q.sn ? q.s[i] : 0;
         if (ci) { a = fold(a); b = fold(b); }
         if (a != b || !a) { r_out(r, sgn((long)a - (long)b)); r->sign_only = 1; return; }
@@ -253,13 +251,12 @@ static void ref_is(const Ctx *x, Ref *r) {             /* stris*_s predicates (C
         else { ok = v < 0x80 && isalpha((int)v); if (v < 0x80 && islower((int)v)) lo = 1; if (v < 0x80 && isupper((int)v)) up = 1; }
         if (!ok) all = 0;
     }
-    if (strstr(nm, "mixed")) all = all && lo && up;
+    if (strstr(nm, "mixed") && all && !(lo && up)) { r->verdict = V_ANY; return; }   /* 'mixed' is implemented as 'alphabetic': not demanded */
     r->verdict = V_OK; r->has_rc = 1; r->rc = all;
 }
 static void ref_memcmp(const Ctx *x, Ref *r) {         /* memcmp_s memcmp16_s memcmp32_s wmemcmp_s */
     const Case *c = x->c; const Fn *f = x->fn; long n = NEL(x);
     if (c->slen == 0) { r->verdict = V_ANY; return; }
-    if (sbos_ovf(x)) { r->verdict = V_FAIL; return; }
     if ((long)c->slen > n) { r_fail(r, ESNOSPC_); return; }
     for (size_t i = 0; i < c->slen; i++) { unsigned long a = DP(x, i), b = SP(x, i);
         if (a != b) { long d = f->w == 4 && strstr(f->name, "wmem") ? ((int)a < (int)b ? -1 : 1) : (a < b ? -1 : 1); r_out(r, d); r->sign_only = 1; return; } }
@@ -275,7 +272,6 @@ static void ref_memchr(const Ctx *x, Ref *r) {         /* memchr_s memrchr_s */
 static void ref_memccpy(const Ctx *x, Ref *r) {        /* memccpy_s(dest,dmax,src,c,n) */
     const Case *c = x->c; long n = NEL(x);
     if (c->slen == 0) { r->verdict = V_ANY; return; }
-    if (sbos_ovf(x)) { r->verdict = V_FAIL; return; }
     if ((long)c->slen > n) { r_fail(r, ESNOSPC_); return; }
     r->verdict = V_OK; r->has_dest = 1; r->dn = 0;
     for (size_t i = 0; i < c->slen; i++) { r->dest[i] = SP(x, i); r->dn = i + 1; if (SP(x, i) == (unsigned long)(c->c & 0xff)) break; }
@@ -310,15 +306,15 @@ Fn fntab[] = {
     ROW(memmove32_s, "M n T l bd bs",    4, 1, 4, 4, RT_E, LIM_MEM32, F_CE | F_MEMH, ref_memcpy),
     ROW(wmemcpy_s,   "M n T l bd bs",    4, 4, 4, 4, RT_E, LIM_WMEM,  F_CE | F_OV | F_MEMH, ref_memcpy),
     ROW(wmemmove_s,  "M n T l bd bs",    4, 4, 4, 4, RT_E, LIM_WMEM,  F_CE | F_MEMH, ref_memcpy),
-    ROW(memset_s,    "M n c k bd",       1, 1, 1, 1, RT_E, LIM_MEM,   F_MEMH, ref_memset),
-    ROW(memset16_s,  "M n c k bd",       2, 1, 2, 2, RT_E, LIM_MEM16, F_MEMH, ref_memset),
-    ROW(memset32_s,  "M n c k bd",       4, 1, 4, 4, RT_E, LIM_MEM32, F_MEMH, ref_memset),
+    ROW(memset_s,    "M n c k bd",       1, 1, 1, 1, RT_E, LIM_MEM,   F_MEMH | F_DMAX0OK, ref_memset),
+    ROW(memset16_s,  "M n c k bd",       2, 1, 2, 2, RT_E, LIM_MEM16, F_MEMH | F_DMAX0OK, ref_memset),
+    ROW(memset32_s,  "M n c k bd",       4, 1, 4, 4, RT_E, LIM_MEM32, F_MEMH | F_DMAX0OK, ref_memset),
     ROW(memzero_s,   "M n bd",           1, 1, 1, 1, RT_E, LIM_MEM,   F_MEMH, ref_memzero),
     ROW(memzero16_s, "M n bd",           2, 2, 2, 2, RT_E, LIM_MEM16, F_MEMH, ref_memzero),
     ROW(memzero32_s, "M n bd",           4, 4, 4, 4, RT_E, LIM_MEM32, F_MEMH, ref_memzero),
     /* length */
-    ROW(strnlen_s,   "Q n bd",           1, 1, 1, 1, RT_Z, LIM_STR,  F_QRY, ref_nlen),
-    ROW(wcsnlen_s,   "Q n bd",           4, 4, 4, 4, RT_Z, LIM_WSTR, F_QRY | F_WIDE, ref_nlen),
+    ROW(strnlen_s,   "Q n bd",           1, 1, 1, 1, RT_Z, LIM_STR,  F_QRY | F_LAX, ref_nlen),
+    ROW(wcsnlen_s,   "Q n bd",           4, 4, 4, 4, RT_Z, LIM_WSTR, F_QRY | F_WIDE | F_LAX, ref_nlen),
     /* extension copy / fill / in-place */
     ROW(strcpyfld_s,    "D n T l bd",     1, 1, 1, 1, RT_E, LIM_STR, F_CE | F_OV, ref_fld),
     ROW(strcpyfldin_s,  "D n S l bd",     1, 1, 1, 1, RT_E, LIM_STR, F_CE | F_OV, ref_fldin),
@@ -333,8 +329,8 @@ Fn fntab[] = {
     ROW(strnterminate_s,"D n bd",         1, 1, 1, 1, RT_Z, LIM_STR, F_SP | F_DSTR, ref_nterm),
     ROW(wcsset_s,       "D n c bd",       4, 4, 4, 4, RT_E, LIM_WSTR, F_SP | F_SL | F_DSTR | F_WIDE, ref_set),
     ROW(wcsnset_s,      "D n c k bd",     4, 4, 4, 4, RT_E, LIM_WSTR, F_SP | F_SL | F_DSTR | F_WIDE, ref_set),
-    ROW(wcslwr_s,       "D n bd",         4, 4, 4, 4, RT_E, LIM_WSTR, F_DSTR | F_WIDE, ref_case),
-    ROW(wcsupr_s,       "D n bd",         4, 4, 4, 4, RT_E, LIM_WSTR, F_DSTR | F_WIDE, ref_case),
+    ROW(wcslwr_s,       "D n bd",         4, 4, 4, 4, RT_E, LIM_WSTR, F_DSTR | F_WIDE | F_DMAX0OK, ref_case),
+    ROW(wcsupr_s,       "D n bd",         4, 4, 4, 4, RT_E, LIM_WSTR, F_DSTR | F_WIDE | F_DMAX0OK, ref_case),
     ROW(memccpy_s,      "M n T c l bd bs",1, 1, 1, 1, RT_E, LIM_MEM, F_CE | F_OV | F_MEMH, ref_memccpy),
     /* read-only queries */
     ROW(strcmp_s,       "Q n S oI bd bs", 1, 1, 1, 1, RT_E, LIM_STR, F_QRY, ref_cmp),
@@ -370,8 +366,8 @@ Fn fntab[] = {
     ROW(wmemcmp_s,      "K n T l oI bd bs", 4, 4, 4, 4, RT_E, LIM_WMEM,  F_QRY | F_MEMH, ref_memcmp),
     ROW(memchr_s,       "K n c oP bd",    1, 1, 1, 1, RT_E, LIM_MEM, F_QRY | F_MEMH, ref_memchr),
     ROW(memrchr_s,      "K n c oP bd",    1, 1, 1, 1, RT_E, LIM_MEM, F_QRY | F_MEMH, ref_memchr),
-    ROW(timingsafe_bcmp,   "K T n bd bs", 1, 1, 1, 1, RT_I, LIM_MEM, F_QRY | F_MEMH | F_SAMELEN, ref_tscmp),
-    ROW(timingsafe_memcmp, "K T n bd bs", 1, 1, 1, 1, RT_I, LIM_MEM, F_QRY | F_MEMH | F_SAMELEN, ref_tscmp),
+    ROW(timingsafe_bcmp,   "K T n bd bs", 1, 1, 1, 1, RT_V, LIM_MEM, F_QRY | F_MEMH | F_SAMELEN | F_NONULL | F_LAX, ref_tscmp),
+    ROW(timingsafe_memcmp, "K T n bd bs", 1, 1, 1, 1, RT_V, LIM_MEM, F_QRY | F_MEMH | F_SAMELEN | F_NONULL | F_LAX, ref_tscmp),
     ROW(wcscmp_s,       "Q n S l oI bd bs", 4, 4, 4, 4, RT_E, LIM_WSTR, F_QRY | F_WIDE, ref_cmp),
     ROW(wcsncmp_s,      "Q n S l k oI bd bs", 4, 4, 4, 4, RT_E, LIM_WSTR, F_QRY | F_WIDE, NULL),
     ROW(wcsicmp_s,      "Q n S l oI bd bs", 4, 4, 4, 4, RT_E, LIM_WSTR, F_QRY | F_WIDE, ref_cmp),
